@@ -29,7 +29,7 @@ TIE = {
  "C03": "10 structural facts extracted from `sfile.py`/`records.cpp` + correspondence on histories (answers and file bytes after every op)",
  "C04": "Gen.v regenerated (print precisions; scan conversions compared) + correspondence on file text / header / array, printf & strtod models compared with glibc per cell",
  "C05": "16 constants/decisions regenerated from `util.py`/`chist_pywrap.c` + bit-exact correspondence on hist/rev/sort index, both engines",
- "C06": "correspondence only (hand model; argsort as monitored oracle)",
+ "C06": "Gen.v regenerated (50+ operators/constants/polarities/defaults/exception classes of match, match_multi, unique, rem_dup), Tie.v: skeleton(Gen) = model, small-scope evaluation of skeleton(Gen) in Coq + correspondence (argsort as monitored oracle)",
  "C07": "Gen.v regenerated (isinstance tuples, guard operators, filter polarity, allocator, dims, defaults, exception classes), Tie.v: skeleton(Gen) = model + correspondence",
  "C08": "Gen.v/Src.v/SrcF.v regenerated (constants + all four function bodies, R and binary64 readings) + bit-exact replay of every call + interval certificates",
  "C09": "Gen.v regenerated (12 rotation rows, constants, operators, latitude-shape flags, x/y/z formulas), theorems re-proved + interval certificates per output",
